@@ -803,3 +803,16 @@ Lemma w_sibling_spec :
   digest_p (fst (step cfg4 ord_all s (Pr 1))) = [(0, false, true); (1, false, false)] /\
   snd (step cfg4 ord_all (fst (step cfg4 ord_all s (Pr 1))) (Pr 0)) = OResp 0.
 Proof. vm_compute. repeat split; reflexivity. Qed.
+
+(* the scripted backpressure handler (stepx / XQh): two servers, request buffer 1, no overflow;
+   request 0 stays in the buffer of server slot 1; while the delivery of request 1 to slot 1 stalls,
+   the handler lets slot 0 poll: has_requests = true and receive hands out request 1 as a
+   CONNECTED ActiveRequest, because send_request opens the response channel before it delivers *)
+Definition cfg5 : cfg := mkCfg 1 1 1 1 1 2 1 false false false 0.
+Definition w_bph_pre : list op := [Cc 0; Sc 0; Sc 1; Q 0; Sr 0; Ad 0; Pd 0].
+Lemma w_bph_spec :
+  let s := run cfg5 w_bph_pre in
+  let r := stepx cfg5 ord_all ord_all s (XQh 0 0) in
+  snd r = OQh (OOkN 1) (Some (Some (true, OAct 1 1 1))) /\
+  digest_p (fst r) = [(1, true, false)] /\ digest_a (fst r) = [(1, 0, true, false)].
+Proof. vm_compute. repeat split; reflexivity. Qed.
